@@ -391,42 +391,43 @@ theorem prefixZeros_total (hc : Rel e.c) {n : Nat} (b : Bytes) (hb : Inb n b) (h
       exact leadingZeroCheck_total hc isPrefix b2 hrp2.1 zeros start2 (by have := hrp2.2; omega)
   · exact hb
 
+theorem negBlock_total (hc : Rel e.c) {n : Nat} (co isNeg : Bool) (b : Bytes) (hb : Inb n b) (start : Nat) :
+    FlowTot n (negBlock e co isNeg b start) := by
+  unfold negBlock
+  split
+  · exact parseDigitsUnchecked_total hc _ _ _ _ _ hb
+  · exact hb
+
+theorem mainBlock_total (hc : Rel e.c) {n : Nat} (co isNeg : Bool) (b : Bytes) (hb : Inb n b) (value start od : Nat) :
+    FlowTot n (mainBlock e co isNeg b value start od) := by
+  unfold mainBlock
+  split
+  · exact parseDigitsUnchecked_total hc _ _ _ _ _ hb
+  · split
+    · exact parseDigitsChecked_total hc _ _ _ _ _ hb
+    · exact parseDigitsChecked_total hc _ _ _ _ _ hb
+
 theorem digitsPhase_total (hc : Rel e.c) {n : Nat} (isNeg : Bool) (b : Bytes) (hb : Inb n b) (start : Nat) :
     match digitsPhase e isNeg b start with
     | .ok r => Total n r
     | .error r => Total n r := by
-  unfold digitsPhase
+  unfold digitsPhase digitsBody
   simp only [hc.hd, Bool.false_and, Bool.false_eq_true, if_false]
-  -- first block
-  have h1 : FlowTot n (if (decide (b.asSlice.length ≤ ParseInt.overflowDigits e.t e.radix) && isNeg) = true then
-      parseDigitsUnchecked e true true start b 0 else .ok (b, 0)) := by
-    split
-    · exact parseDigitsUnchecked_total hc _ _ _ _ _ hb
-    · exact hb
-  generalize (if (decide (b.asSlice.length ≤ ParseInt.overflowDigits e.t e.radix) && isNeg) = true then
-      parseDigitsUnchecked e true true start b 0 else (.ok (b, 0) : Flow (Bytes × Nat))) = st1 at h1
-  cases st1 with
-  | error r => exact h1
+  have h1 := negBlock_total hc (decide (b.asSlice.length ≤ ParseInt.overflowDigits e.t e.radix)) isNeg b hb start
+  cases hn : negBlock e (decide (b.asSlice.length ≤ ParseInt.overflowDigits e.t e.radix)) isNeg b start with
+  | error r => rw [hn] at h1; exact h1
   | ok p =>
     obtain ⟨b1, v1⟩ := p
+    rw [hn] at h1
     simp only
-    have h2 : FlowTot n (if decide (b.asSlice.length ≤ ParseInt.overflowDigits e.t e.radix) = true then
-        parseDigitsUnchecked e false true start b1 v1
-        else if isNeg = true then parseDigitsChecked e true start b1 v1 (ParseInt.overflowDigits e.t e.radix)
-        else parseDigitsChecked e false start b1 v1 (ParseInt.overflowDigits e.t e.radix)) := by
-      split
-      · exact parseDigitsUnchecked_total hc _ _ _ _ _ h1
-      · split
-        · exact parseDigitsChecked_total hc _ _ _ _ _ h1
-        · exact parseDigitsChecked_total hc _ _ _ _ _ h1
-    generalize (if decide (b.asSlice.length ≤ ParseInt.overflowDigits e.t e.radix) = true then
-        parseDigitsUnchecked e false true start b1 v1
-        else if isNeg = true then parseDigitsChecked e true start b1 v1 (ParseInt.overflowDigits e.t e.radix)
-        else parseDigitsChecked e false start b1 v1 (ParseInt.overflowDigits e.t e.radix)) = st2 at h2
-    cases st2 with
-    | error r => exact h2
+    have h2 := mainBlock_total hc (decide (b.asSlice.length ≤ ParseInt.overflowDigits e.t e.radix)) isNeg b1 h1 v1 start
+      (ParseInt.overflowDigits e.t e.radix)
+    cases hm : mainBlock e (decide (b.asSlice.length ≤ ParseInt.overflowDigits e.t e.radix)) isNeg b1 v1 start
+        (ParseInt.overflowDigits e.t e.radix) with
+    | error r => rw [hm] at h2; exact h2
     | ok p2 =>
       obtain ⟨b2, v2⟩ := p2
+      rw [hm] at h2
       exact intoOk_total _ _ _ (Nat.le_of_eq h2.1)
 
 /-- **the model is total in a release build of any format whose separator dispatch has no `unreachable!()` arm** -/
